@@ -669,7 +669,10 @@ class Selector(css_parser.util.Base2):
                     # :func(expression)"
                     append(seq, val, 'function-end', token=token)
                     new['context'].pop()  # pseudo is done
-                    if 'pseudo-element' == context:
+                    if 'negation' == new['context'][-1]:
+                        # :not(:func(expression))
+                        return negationend
+                    elif 'pseudo-element' == context:
                         return combinator
                     else:
                         return simple_selector_sequence + combinator
